@@ -3,7 +3,7 @@
    a component-wise matching predicate. *)
 From Coq Require Import List Bool ZArith Btauto.
 Import ListNotations.
-From BWPlanner Require Import Terms Rows Clause Store Fetch Plan PatternSpec RowsProofs FetchProofs PlanProofs SpecSound Equiv Canon.
+From BWPlanner Require Import Terms Rows Clause Store Fetch Plan PatternSpec RowsProofs FetchProofs PlanProofs SpecSound Equiv Canon Domain.
 
 (* global time bounds on a stored predicate *)
 Definition gw (lo : lopts) (tp : pred) : bool :=
@@ -56,13 +56,6 @@ Proof.
   intros e p tp H. unfold pp, pred_key_eqb, id_match, is_temporal. rewrite H. cbn.
   destruct (panchor p), (panchor tp); cbn; btauto.
 Qed.
-
-(* graphs as the store holds them: no two triples with the same key *)
-Fixpoint graph_nodup (g : graph) : bool :=
-  match g with
-  | [] => true
-  | t :: r => negb (existsb (triple_key_eqb t) r) && graph_nodup r
-  end.
 
 Lemma filter_key_unique : forall q g, graph_nodup g = true ->
   filter (triple_key_eqb q) g = [] \/ exists x, filter (triple_key_eqb q) g = [x].
